@@ -21,6 +21,8 @@ def run(tier, seed):
     lines_universe(rep, "vf.oracles2:c17_tabs", tier, "MarkdownIt.parse", "leading tabs == column-exact spaces (blocks, nesting, maps, text)", cfgs=["commonmark", "cm+table+strike"])
     rep.bounded.append(bounded.run("vf.oracles2:c17_marker_tabs", "list", 0, ["commonmark"], "rules_block.blockquote / list_block", "a tab after a block quote or list marker == spaces up to the next multiple-of-four physical column",
                                    "constructed lines: up to three segments (indent 0-3, marker > - * 1. 12), 1-4 blanks) + leaf; distinct = distinct token signatures", items=oracles2.c17_marker_cases(), universe="constructed marker/blank lines"))
+    rep.bounded.append(bounded.run("vf.oracles2:c17_twoline", "list", 0, ["commonmark"], "rules_block.blockquote / list_block (continuation lines)", "same equivalence on the second line of an open container",
+                                   "7 first lines x up to two (indent, marker, blanks) segments x 2 leaves", items=oracles2.c17_twoline_cases(), universe="constructed two-line documents"))
     rep.explanation = ("Mixed. Deductive (when contracts.cons is present): the physical-column invariant bsCount + sCount == PhysCol(first content char) of the block quote marker code. "
                        "Bounded: the equivalences themselves as relational contracts on parse/render over the line universe and the constructed marker lines.")
     rep.trusted_base = STD_TRUST
